@@ -1593,6 +1593,7 @@ func smallScenarios(thorough bool) []Case {
 			mk(preempt, 2, []Op{c(0)}, []Op{c(1)}, "tick", nil),          // same measurement: the batch adds a tag value
 			mk(preempt, 1, []Op{c(0)}, []Op{c(1)}, "writer", []Op{c(4)}), // two writers, one batch each
 			mk(preempt, 1, []Op{c(0)}, []Op{c(4)}, "tick", nil),          // the batch brings a new measurement
+			mk(deviation, 2, []Op{c(0)}, []Op{c(2), c(3)}, "tick", nil),  // two batches: the second goes to the log file the first one's roll created
 		}
 	}
 	return []Case{
@@ -1608,57 +1609,126 @@ func smallScenarios(thorough bool) []Case {
 	}
 }
 
-// exploreSharded enumerates every schedule of h with <= bound cost. Every shard runs the root execution; the subtrees
-// of the root's alternatives are dealt round-robin (the root itself is visited by shard 0).
+// exploreSharded enumerates every schedule of h with <= bound cost, the tree being split over the shards: every shard
+// runs the root execution (visited by shard 0) and estimates the size of the subtree of each of its alternatives from
+// the root's own steps; alternatives whose subtree is larger than one shard's fair share are run by every shard too
+// (visited by one) and split into their children; all other subtrees are dealt whole, largest first, to the least
+// loaded shard. Every shard computes the same table (executions are deterministic), so every execution of the tree is
+// visited by exactly one shard.
 func exploreSharded(t *testing.T, h *vrt.Harness, bound, shard, nshards int, stop func() bool, visit func(*vrt.Result)) vrt.Stats {
 	st := vrt.Stats{Bound: bound, Complete: true}
-	var c1 int
-	var rec func(prefix []int, level int, visitThis bool)
-	rec = func(prefix []int, level int, visitThis bool) {
+	stopped := func() bool {
 		if stop != nil && stop() {
 			st.Complete = false
+			return true
+		}
+		return false
+	}
+	seen := func(x *vrt.Result, from int) {
+		st.Executions++
+		st.Transitions += int64(len(x.Steps))
+		if len(x.Steps) > st.MaxDepth {
+			st.MaxDepth = len(x.Steps)
+		}
+		for i := from; i < len(x.Steps); i++ {
+			if len(x.Steps[i].Enabled) > 1 {
+				st.Nodes++
+			}
+		}
+		visit(x)
+	}
+	type unit struct {
+		prefix []int
+		est    int
+	}
+	// alts lists the alternatives of execution x at steps >= from that are within the bound, with the estimated size of
+	// their subtrees (1 + the alternatives x itself offers behind them within the remaining bound).
+	alts := func(x *vrt.Result, from int) []unit {
+		var out []unit
+		if x.Diverged != "" {
+			return nil
+		}
+		pre := make([]int, len(x.Steps)+1)
+		for i, sp := range x.Steps {
+			pre[i+1] = pre[i]
+			if sp.Preempt {
+				pre[i+1]++
+			}
+		}
+		for i := from; i < len(x.Steps); i++ {
+			for alt := 1; alt < len(x.Steps[i].Enabled); alt++ {
+				c := pre[i] + x.Steps[i].Costs[alt]
+				if c > bound {
+					continue
+				}
+				est := 1
+				for j := i + 1; j < len(x.Steps); j++ {
+					for a2 := 1; a2 < len(x.Steps[j].Enabled); a2++ {
+						if c+(pre[j]-pre[i+1])+x.Steps[j].Costs[a2] <= bound {
+							est++
+						}
+					}
+				}
+				out = append(out, unit{append(append([]int{}, x.Choices[:i]...), alt), est})
+			}
+		}
+		return out
+	}
+	var full func(prefix []int)
+	full = func(prefix []int) {
+		if stopped() {
 			return
 		}
 		x := vrt.RunOnce(t, h, prefix)
-		if visitThis {
-			st.Executions++
-			st.Transitions += int64(len(x.Steps))
-			if len(x.Steps) > st.MaxDepth {
-				st.MaxDepth = len(x.Steps)
-			}
-			visit(x)
-		}
-		if x.Diverged != "" {
-			return
-		}
-		pre := 0
-		for i := 0; i < len(x.Steps); i++ {
-			sp := x.Steps[i]
-			if i >= len(prefix) {
-				if len(sp.Enabled) > 1 && visitThis {
-					st.Nodes++
-				}
-				for alt := 1; alt < len(sp.Enabled); alt++ {
-					if pre+sp.Costs[alt] > bound {
-						continue
-					}
-					np := append(append([]int{}, x.Choices[:i]...), alt)
-					if level == 0 {
-						c1++
-						if c1%nshards == shard {
-							rec(np, 1, true)
-						}
-					} else {
-						rec(np, level+1, true)
-					}
-				}
-			}
-			if sp.Preempt {
-				pre++
-			}
+		seen(x, len(prefix))
+		for _, u := range alts(x, len(prefix)) {
+			full(u.prefix)
 		}
 	}
-	rec(nil, 0, shard == 0)
+	if stopped() {
+		return st
+	}
+	root := vrt.RunOnce(t, h, nil)
+	if shard == 0 {
+		seen(root, 0)
+	}
+	l1 := alts(root, 0)
+	total := 0
+	for _, u := range l1 {
+		total += u.est
+	}
+	ideal := total/nshards + 1
+	var whole []unit
+	nsplit := 0
+	for _, u := range l1 {
+		if nshards == 1 || u.est <= ideal {
+			whole = append(whole, u)
+			continue
+		}
+		if stopped() {
+			return st
+		}
+		x := vrt.RunOnce(t, h, u.prefix) // a large subtree: every shard runs its root and the children are dealt out
+		if nsplit%nshards == shard {
+			seen(x, len(u.prefix))
+		}
+		nsplit++
+		whole = append(whole, alts(x, len(u.prefix))...)
+	}
+	sort.SliceStable(whole, func(i, j int) bool { return whole[i].est > whole[j].est })
+	load := make([]int, nshards)
+	for _, u := range whole {
+		k := 0
+		for i := 1; i < nshards; i++ {
+			if load[i] < load[k] {
+				k = i
+			}
+		}
+		load[k] += u.est
+		if k == shard {
+			full(u.prefix)
+		}
+	}
 	return st
 }
 
@@ -1715,10 +1785,14 @@ func runSmallSched(t *testing.T, c *vlib.Ctx, base string, si int, sc Case, stop
 			var tr []string
 			for _, s := range r.Steps {
 				if s.Preempt {
-					tr = append(tr, fmt.Sprintf("step %d: %s at %s instead of the default thread", len(tr), r.Names[s.Thread], s.Label))
+					tr = append(tr, fmt.Sprintf("#%d: switch to %s at %s", len(tr)+1, r.Names[s.Thread], s.Label))
 				}
 			}
-			c.Violation(sg, fmt.Sprintf("small schedule part: %s, %d deviations (%s), %s: %s", smallName(sc), devs, strings.Join(tr, "; "), fd.Stage, fd.Why), cs)
+			unit := "preemptions"
+			if sc.DevCost {
+				unit = "deviations from the default schedule"
+			}
+			c.Violation(sg, fmt.Sprintf("small schedule part: %s, %d %s (%s), %s: %s", smallName(sc), devs, unit, strings.Join(tr, "; "), fd.Stage, fd.Why), cs)
 		}
 	})
 	c.StateN(st.Nodes)
@@ -1740,6 +1814,7 @@ func runSmallSchedules(t *testing.T, c *vlib.Ctx, share time.Duration) {
 	}()
 	base := vlib.Scratch("c14ss-")
 	defer os.RemoveAll(base)
+	defer runtime.GOMAXPROCS(runtime.GOMAXPROCS(1)) // see Replay: goroutine ids must follow creation order (workers have GOMAXPROCS=1 anyway)
 	deadline := time.Now().Add(share)
 	stop := func() bool { return c.Expired() || time.Now().After(deadline) }
 	scs := smallScenarios(c.Thorough())
@@ -2829,7 +2904,7 @@ func TestCheck(t *testing.T) {
 		return
 	}
 	vlib.Main(t, &vlib.Check{
-		ID: "C14", Level: "model_checking", QuickBudgetS: 70, ThoroughBudgetS: 870, WorkerEnv: []string{"GOMAXPROCS=1"},
+		ID: "C14", Level: "model_checking", QuickBudgetS: 70, ThoroughBudgetS: 820, WorkerEnv: []string{"GOMAXPROCS=1"},
 		Rule: "every op sequence within the stated length bounds, each executed from scratch on a real tsi1.Index on a real tsdb.SeriesFile in a fresh directory, over a universe of 6 series (S0 m0,a=x; S1 m0,a=y; S2 m0,a=x,b=x; S3 m0,b=y; S4 m1,a=x; S5 m1,a=y,b=x: 2 measurements x 2 tag keys x 2 values; S2 is the only holder of m0.b=x). " +
 			"Ops: create{S0},{S2},{S4},{S0..S3},{S0..S5} (Index.CreateSeriesListIfNotExists); dropS S0|S2|S4 = the engine's series delete in a single-shard database (Index.DropSeries(id,key,false), DropMeasurementIfSeriesNotExist, SeriesFile.DeleteSeriesID); dropM m0 = the engine's measurement delete (the same for every series of m0); dropMd m0|m1 = Index.DropMeasurement called directly, then the series ids deleted from the series file; reopen = Index.Close, SeriesFile.Close, SeriesFile.Open, Index.Open; compact = forced log compaction at the step boundary (log threshold 1 on every partition, Index.Compact()+Wait() until no partition needs compaction: log -> L1, L1+L1 -> L2, ..., threshold restored). " +
 			"Configurations: explicit (default 1 MiB log threshold, 1 partition: files change only at compact ops), auto (threshold 1, 1 partition: every op's log file is rolled and compacted at once, awaited after every Index call), mid (threshold 40 bytes, 2 partitions: rolls after ~3 entries, awaited). " +
@@ -2837,7 +2912,7 @@ func TestCheck(t *testing.T) {
 			"After EVERY op, after a final restart, and after each of three probe ops on the restarted index (create all 6 series; engine delete of m0; of m1 — index-only drops in the shared families) every metadata query is compared with the view of the model's live series: MeasurementIterator, MeasurementExists(m); TagKeyIterator(m), HasTagKey(m,k); TagValueIterator(m,k), HasTagValue(m,k,v) on the Index; MeasurementSeriesIDIterator(m), TagKeySeriesIDIterator(m,k), TagValueSeriesIDIterator(m,k,v) through tsdb.IndexSet{index, series file} (ids mapped back to series) for both measurements, both keys, both values (also for measurements/keys/values that no longer exist: expected empty/false). A history is executed to its end; every distinct violation class it shows is recorded. " +
 			"State = model state (per series live / dropped-but-still-in-series-file / absent) + file layout per partition (log empty/non-empty, index file levels); transition = one executed op; trace = one complete history validated on the implementation. Non-trivial = histories containing a create (distinct by construction), executions with >= 1 preemption. " +
 			"SCHEDULE PART (thorough tier only, with the wall budget the sequential families leave; the evidence names the phase it stopped in): log threshold 1, 1 partition, nothing awaited between calls; initial index content in {empty, create{S0..S3}, create{S0..S3}+dropS S2} (fully compacted), ONE writer thread running every program of length 1 (then 2) over {create{S0},{S2},{S0..S3}, dropS S2, dropM m0} against the partition's own goroutines (checkLogFile -> go Compact -> go compactLogFile / compactToLevel, manifest swap, file removal), which are started by the writer's calls; phases: every schedule with 0 preemptions (all orders of goroutines at blocking points), then <= 1 preemption for length 1, then <= 1 for length 2, at every Lock/RLock of tsi1/partition.go and tsi1/log_file.go (vsched: baton passing inside a synctest bubble; atomics/Once pass silently). When the writer has finished, all compactions are awaited and every query is compared with the writer's model; then restart + probe as above. A class seen only under a schedule other than the preemption-free one is reported as schedule-dependent/<class>; deadlock and step-cap are violations. For the schedule part states = decision nodes of the schedule trees, transitions = scheduling steps, traces = executions. " +
-			"SMALL SCHEDULE PART (engine vsched; BOTH tiers, runs first, limited to 20 s quick / 120 s thorough of wall time; its decision nodes / scheduling steps / executions are added to states / transitions / traces and reported separately as sched_small_states / sched_small_transitions / sched_small_traces, per scenario as sched_small_traces_scenario_<i>): 1 partition, index opened with the default log threshold, the initial create stays in the active log file L0-1; then the partition's log threshold is lowered to 1 so that the non-empty log file is DUE for retirement (the state of a log file older than maxLogFileAge; every log file the writer fills becomes due as well, so its own CheckLogFile rolls it and starts go Compact -> go compactLogFile -> manifest swap -> log-file removal -> follow-up Compact / level compaction, all in the partition's own goroutines under the scheduler). Threads: ONE writer creating 1-2 series batches through Index.CreateSeriesListIfNotExists, against either the partition's periodic-compaction tick (the ticker case of Partition.runPeriodicCompaction: if NeedsCompaction(true) { Compact() }) or a second writer creating one batch. Quick scenarios: init create{S0}: writer [create{S1}] || tick, <= 2 preemptions; writer [create{S1}] || writer2 [create{S4}], <= 1 preemption; writer [create{S4}] || tick, <= 1 preemption (about 0.8 k executions). Thorough (9 scenarios, about 9.5 k executions): the tick scenarios with <= 3 preemptions, two writers <= 2, inits create{S0..S3} / create{S4} / empty with <= 2 preemptions, writer [create{S2}, create{S3}] || tick with <= 3 deviations from the default schedule (every non-default choice costs 1), writer [create{S0}, create{S1}] on an empty log || tick and three batches over two writers with <= 2 deviations. Decision points: every write Lock of Partition.mu and LogFile.mu, the RLocks of the writer's path (RetainFileSet, createSeriesListIfNotExists, CheckLogFile), of the compaction's log-file read (LogFile.CompactTo) and of NeedsCompaction, and the threads' call boundaries; other RLocks pass silently (but block while the lock is write-held). When the harness threads have finished the scheduler is drained, ALL compactions are awaited (threshold 1: every log file is compacted, then the levels) and every metadata query is compared with the view of the acknowledged creates (set union); then Index and series file are restarted (compactions awaited) and every query is compared again. Every class seen here is reported as schedule-dependent/<class> (the writers only create: nothing is stale by design); deadlock and step cap are violations (sched-small/...). " +
+			"SMALL SCHEDULE PART (engine vsched; BOTH tiers, runs first, limited to 20 s quick / 100 s thorough of wall time; its decision nodes / scheduling steps / executions are added to states / transitions / traces and reported separately as sched_small_states / sched_small_transitions / sched_small_traces, per scenario as sched_small_traces_scenario_<i>): 1 partition, index opened with the default log threshold, the initial create stays in the active log file L0-1; then the partition's log threshold is lowered to 1 so that the non-empty log file is DUE for retirement (the state of a log file older than maxLogFileAge; every log file the writer fills becomes due as well, so its own CheckLogFile rolls it and starts go Compact -> go compactLogFile -> manifest swap -> log-file removal -> follow-up Compact / level compaction, all in the partition's own goroutines under the scheduler). Threads: ONE writer creating 1-2 series batches through Index.CreateSeriesListIfNotExists, against either the partition's periodic-compaction tick (the ticker case of Partition.runPeriodicCompaction: if NeedsCompaction(true) { Compact() }) or a second writer creating one batch. Quick scenarios: init create{S0}: writer [create{S1}] || tick, <= 2 preemptions; writer [create{S1}] || writer2 [create{S4}], <= 1 preemption; writer [create{S4}] || tick, <= 1 preemption; writer [create{S2}, create{S3}] || tick, <= 2 deviations from the default schedule (every non-default choice costs 1) (about 1.1 k executions in all). Thorough (9 scenarios, about 9.5 k executions): the tick scenarios with <= 3 preemptions, two writers <= 2, inits create{S0..S3} / create{S4} / empty with <= 2 preemptions, writer [create{S2}, create{S3}] || tick with <= 3 deviations from the default schedule (every non-default choice costs 1), writer [create{S0}, create{S1}] on an empty log || tick and three batches over two writers with <= 2 deviations. Decision points: every write Lock of Partition.mu and LogFile.mu, the RLocks of the writer's path (RetainFileSet, createSeriesListIfNotExists, CheckLogFile), of the compaction's log-file read (LogFile.CompactTo) and of NeedsCompaction, and the threads' call boundaries; other RLocks pass silently (but block while the lock is write-held). When the harness threads have finished the scheduler is drained, ALL compactions are awaited (threshold 1: every log file is compacted, then the levels) and every metadata query is compared with the view of the acknowledged creates (set union); then Index and series file are restarted (compactions awaited) and every query is compared again. Every class seen here is reported as schedule-dependent/<class> (the writers only create: nothing is stale by design); deadlock and step cap are violations (sched-small/...). " +
 			"CRASH FAMILY (additional clause, engine crashfs; counted under the crash_* coverage keys and the crash:* outcomes, not under states/transitions/traces; limited to 30 s quick / 390 s thorough of wall time): histories performed by a writer subprocess (PerformHistory on the real Index + series file, GOMAXPROCS=1) under strace with BEGIN/ACK markers around the initial open of the empty directory and every op; the process exits without closing. Quick: 4 hand-picked histories, every cut (log-appends [create{S0..S3}, dropS S2, create{S4}, dropM m0, create{S0}] with the default log threshold, plus the initial open; shared [create{S0..S3}, dropI S0, reopen, create{S0}, dropI{S0..S3}]; compact [create{S0..S5}, compact (log -> L1 .tsi written and synced, manifest tmp written, synced, renamed, log removed), dropS S2, dropMd m1, create{S2}]; auto-compact (log threshold 1, compaction awaited inside the op) [create{S0,S2}, dropS S2]), split into 13 work items by op window (each item re-records the history and evaluates the cuts of its ops only). Thorough: one work item per op, compact with a second compaction (L1+L1 -> L2), auto-compact with 3 ops, reopen-drop, mid (threshold 40 bytes, 2 partitions), plus EVERY sequence of length 1..2 over the 8-op crash alphabet {create{S0},{S2},{S0..S3}, dropS S2, dropM m0, dropMd m0, reopen, compact} (cuts of the last op only). Per history every prefix of the syscall-level event list (P), every torn length 1..n-1 of the write in flight (T; quick: writes longer than 128 bytes, i.e. manifest and .tsi files, get {1..64, every 512th, last 64}; log-file writes are all shorter), and for the sync classes (*.tsl log files, MANIFEST*, *.tsi) the images with un-fsynced data dropped or its last write torn (U); directory operations in program order; images deduplicated by (content, acknowledged ops, op in flight). One evaluation = one (image, acknowledgement context) recovered in a fresh subprocess by CheckRecovery with compactions awaited: real SeriesFile.Open + Index.Open on the image, every metadata query; then the three probe ops (create all 6 series; engine delete of m0; of m1 — index-only drops for the shared history) with every query after each; then a second restart and every query again. Crash oracle: Open and every query succeed; with no op in flight the answers equal the view of the acknowledged live series; with an op in flight the answers equal the view before the op, after it, or after applying it to a subset of its series, or else every single answer lies between the live series before and after the op (its log entries are not written atomically); after each probe op and after the second restart the answers equal the model exactly. A stale item (\"extra\") is reported under the sequential part's signature (the registered by-design staleness of tsi1 matches it); a missing item, a failing open/query/op, a panic or a dead recovery process gets a crash/ signature (clause, stage, kind of op in flight, kind of file the cut lies in). Non-trivial crash case = at least one acknowledged live series or a create in flight.",
 		Assumptions: []string{
 			"series sets are read through tsdb.IndexSet (the reader every consumer of a shard's index uses), which removes ids the series file reports as deleted; the raw Index iterators are known to keep such ids by design (Case.Raw reads them for diagnosis only)",
@@ -2849,14 +2924,14 @@ func TestCheck(t *testing.T) {
 			"crash family: ordered-metadata crash model (creates/renames/unlinks persist in program order; data of sync-class files may be lost back to the last fsync = U images; a write in flight may persist any byte prefix = T images); event order = syscall completion order (the series file writes its partitions from concurrent goroutines: a replay searches its own recording for the image by content)",
 			"crash family: the series-file segments are not a sync class here (their durability is C13's business): their data is never dropped, only cut by P/T images",
 			"crash family: the recovery checker waits for the compactions the restart itself starts before it reads or probes (quiescent index)",
-			"the small schedule part runs first (at most 20 s quick / 120 s thorough), then the crash family, which may use at most 30 s quick / 390 s thorough; beyond that each is capped (exhaustive:false), never an alarm",
+			"the small schedule part runs first (at most 20 s quick / 100 s thorough), then the crash family, which may use at most 30 s quick / 390 s thorough; beyond that each is capped (exhaustive:false), never an alarm",
 			"small schedule part: the due state of the active log file is produced by lowering the size threshold to 1 after the initial create (test-only setter of the overlay) instead of letting maxLogFileAge (4 h) pass; the periodic-compaction tick is played by a harness thread running the body of the ticker case of Partition.runPeriodicCompaction; sequentially consistent interleavings at Lock/RLock granularity of partition.go and log_file.go only; queries at quiescence only; writers only create series",
 		},
 		Run: func(c *vlib.Ctx) {
 			if o := os.Getenv("C14_ONLY"); o == "" || o == "small" {
 				share := 20 * time.Second
 				if c.Thorough() {
-					share = 120 * time.Second
+					share = 100 * time.Second
 				}
 				if v := envInt("C14_SMALL_SHARE_S", 0); v > 0 { // development aid
 					share = time.Duration(v) * time.Second
